@@ -215,6 +215,38 @@ def collect_histories(ctx, vh):
     notes["far_weld_histories"] = len(far)
     hists += far
 
+    # (3d) pairs of generator calls: every primitive / extrusion / repeat generator twice with parameter tuples that
+    #      agree in all but one place (or in all): a table, cache or buffer that one call leaves behind must not
+    #      reach the mesh of the other (the earlier result, and a mesh derived from it, are re-read after the later call)
+    pairs = []
+    base = [2, 4, 2, 0]
+    variants = [[4, 4, 2, 0], [2, 5, 2, 0], [2, 4, 3, 0], [2, 4, 2, 1]]
+    # which tuples a generator accepts is asked of the generator itself (a rejected tuple leaves nothing to re-read)
+    d = ctx.scratch("primpair")
+    tuples = [{"gen": g, "p": t} for g in range(1, 16) for t in [base] + variants]
+    core.write_ndjson(os.path.join(d, "gen.ndjson"), tuples)
+    core.run_vh(vh, ["gen-exec", "-in", os.path.join(d, "gen.ndjson"), "-out", os.path.join(d, "shapes.ndjson")])
+    accepted = {(t["gen"], tuple(t["p"])) for t, ln in zip(tuples, core.read_ndjson(os.path.join(d, "shapes.ndjson")))
+                if ln["shape"]["topo"] != "FAIL"}
+    k = 0
+    for g in range(1, 16):
+        combos = [(base, base)] + [(base, v) for v in variants] + [(v, base) for v in variants]
+        for t1, t2 in combos:
+            if (g, tuple(t1)) not in accepted or (g, tuple(t2)) not in accepted:
+                continue
+            k += 1
+            if tier == "quick" and k % 3 != seed % 3:
+                continue
+            pairs.append({"nslots": 4, "tag": "primpair", "steps": [
+                {"op": "Prim", "dst": 1, "src": [], "args": {"z": 0, "gen": g, "p": t1}},
+                {"op": "Translate", "dst": 3, "src": [1], "args": {"z": 0, "v": [Q, 0, 0]}},
+                {"op": "Prim", "dst": 2, "src": [], "args": {"z": 0, "gen": g, "p": t2}},
+                {"op": "Append", "dst": 4, "src": [2, 1], "args": {"z": 0}},
+                {"op": "Scan", "dst": 0, "src": [1], "args": {"z": 0}}]})
+    notes["primitive_pair_tuples_accepted"] = len(accepted)
+    notes["primitive_pair_histories"] = len(pairs)
+    hists += pairs
+
     # (4) seeded large histories
     d = ctx.scratch("rnd")
     n = 60 if tier == "quick" else 800
